@@ -41,15 +41,16 @@ def exec_records(records, rng=None):
             continue
         if r[0] in by_key:
             dup += 1
-        by_key[r[0]] = r
-    dangling = sorted({d for r in by_key.values() for d in r[4] if d not in by_key})
+        by_key.setdefault(r[0], []).append(r)
+    dangling = sorted({d for rs in by_key.values() for r in rs for d in r[4] if d not in by_key})
     if dangling:
         problems.append(("dangling-dependency", f"{len(dangling)} e.g. {dangling[0]}"))
         return {}, problems, dup
-    indeg = {k: len(set(r[4])) for k, r in by_key.items()}
+    alldeps = {k: set().union(*[set(r[4]) for r in rs]) for k, rs in by_key.items()}
+    indeg = {k: len(d) for k, d in alldeps.items()}
     rdeps = {k: [] for k in by_key}
-    for k, r in by_key.items():
-        for d in set(r[4]):
+    for k, ds in alldeps.items():
+        for d in ds:
             rdeps[d].append(k)
     ready = sorted(k for k, n in indeg.items() if n == 0)
     values = {}
@@ -72,13 +73,18 @@ def exec_records(records, rng=None):
     while ready:
         i = rng.randrange(len(ready)) if rng is not None else 0
         k = ready.pop(i)
-        _, func, args, kwargs, deps = by_key[k]
-        declared = set(deps)
-        try:
-            values[k] = func(*[resolve(a, declared, k) for a in args], **{n: resolve(v, declared, k) for n, v in (kwargs or {}).items()})
-        except Exception as e:
-            problems.append(("task-raises", f"record {k}: {type(e).__name__}: {str(e)[:120]}"))
-            return values, problems, dup
+        fps = []
+        for _, func, args, kwargs, deps in by_key[k]:
+            declared = set(deps)
+            try:
+                values[k] = func(*[resolve(a, declared, k) for a in args], **{n: resolve(v, declared, k) for n, v in (kwargs or {}).items()})
+            except Exception as e:
+                problems.append(("task-raises", f"record {k}: {type(e).__name__}: {str(e)[:120]}"))
+                return values, problems, dup
+            fps.append(graphs.fingerprint(values[k]))
+        if len(set(fps)) > 1:
+            # a key may be defined twice (SetItem embeds a sub-graph, Shuffle shares literal keys) only with one value
+            problems.append(("duplicate-key-different-values", f"{len(fps)} records share the key {k} and compute different values"))
         for r in rdeps[k]:
             indeg[r] -= 1
             if indeg[r] == 0:
@@ -156,8 +162,35 @@ def expected_layers(xs):
     return nodes
 
 
+def verify_alone(x, ref, label):
+    """one collection walked alone (seen=None): declined, or complete with the dask graph's block values"""
+    from dask.core import flatten
+
+    try:
+        recs = x.__frisky_graph__()
+    except NotImplementedError:
+        return [], True
+    fails = []
+    values, problems, _ = exec_records(recs, None)
+    for kind, detail in problems:
+        fails.append(("records:" + kind, f"{label}: {detail}"))
+    if not problems:
+        for k in flatten(x.__dask_keys__()):
+            s = str(k)
+            if s not in values:
+                fails.append(("records:output-key-undefined", f"{label}: {s}"))
+                break
+            if graphs.fingerprint(values[s]) != graphs.fingerprint(ref[k]):
+                fails.append(("records:block-value-differs", f"{label}: block {s}: records give {np.asarray(values[s]).ravel()[:6].tolist()} "
+                              f"dask graph gives {np.asarray(ref[k]).ravel()[:6].tolist()}"))
+                break
+    return fails, False
+
+
 def run_case(ctx, case, count=True):
-    """case: {prog, roots, optimize, shared:bool, oseed}."""
+    """case: {prog, roots, optimize, shared:bool, oseed, history}.  history (groups only):
+    "group" | "group-then-alone" (every member walked alone AFTER the shared walk, same collection
+    objects) | "alone-then-group" (members walked alone BEFORE the shared walk)."""
     import dask
     from dask.core import flatten
     from dask_array._frisky.graph_records import GraphRecordsLayer
@@ -170,8 +203,27 @@ def run_case(ctx, case, count=True):
         except NotImplementedError:
             ctx.notes["refused_at_construction"] = ctx.notes.get("refused_at_construction", 0) + 1
             return None
+        except Exception as e:
+            # raising while the program is BUILT is not a statement about graphs / schedules / records
+            # (e.g. broadcasting a length-1 axis chunked (0, 1)); counted with an example, reported
+            ctx.notes["construction_raised"] = ctx.notes.get("construction_raised", 0) + 1
+            ctx.notes.setdefault("construction_raised_example", f"{type(e).__name__}: {str(e)[:100]} :: {[st['op'] for st in prog]}")
+            return None
         xs = [env[r] for r in case["roots"]]
         label = "+".join(case["roots"])
+        history = case.get("history", "group") if len(xs) > 1 else "group"
+        ref0 = None
+        if history == "alone-then-group":
+            try:
+                dsk = {}
+                for x in xs:
+                    dsk.update(dict(x.__dask_graph__()))
+                ref0, _ = graphs.execute(graphs.to_tasks(dsk), rng=None, order="fifo")
+                for r, x in zip(case["roots"], xs):
+                    f, _ = verify_alone(x, ref0, f"{r} alone before the group walk")
+                    fails += f
+            except Exception:
+                ref0 = None
         # ---- the records
         try:
             if case.get("shared", True) and len(xs) > 1:
@@ -252,6 +304,10 @@ def run_case(ctx, case, count=True):
                         fails.append(("records:block-value-differs", f"{label}: block {s}: records give {np.asarray(values[s]).ravel()[:6].tolist()} "
                                       f"dask graph gives {np.asarray(ref[k]).ravel()[:6].tolist()}"))
                         break
+        if history == "group-then-alone" and not fails:
+            for r, x in zip(case["roots"], xs):
+                f, _ = verify_alone(x, ref, f"{r} alone after the group walk {label}")
+                fails += [(sig + "@after-group", d) for sig, d in f]
         # ---- shared seen: every reachable layer once
         nodes = expected_layers(xs)
         if seen is not None:
@@ -301,14 +357,51 @@ def run_case(ctx, case, count=True):
     return fails
 
 
+FAST_SIG = "fused-fast-records:sampled-block-independence"
+
+
+def passes_with_slow_records(ctx, case):
+    """True when the case passes once FusedBlockwiseLayer's sampled fast path is switched off
+    (records built from every block's real task): the failure is the fast path's."""
+    from dask_array._frisky import fused_blockwise as fb
+
+    orig = fb.FusedBlockwiseLayer._fast_records
+    fb.FusedBlockwiseLayer._fast_records = lambda self: None
+    try:
+        f = run_case(ctx, case, count=False)
+        return f is not None and not f
+    except Exception:
+        return False
+    finally:
+        fb.FusedBlockwiseLayer._fast_records = orig
+
+
 def report(ctx, case, fails):
     by_sig = {}
     for sig, detail in fails:
         by_sig.setdefault(sig, detail)
+    if any(s.startswith("records:") for s in by_sig) and passes_with_slow_records(ctx, case):
+        # every records:* failure of this case disappears with the exact per-block records
+        detail = next(d for s, d in by_sig.items() if s.startswith("records:"))
+        by_sig = {s: d for s, d in by_sig.items() if not s.startswith("records:")}
+        by_sig[FAST_SIG] = detail
     for sig, detail in by_sig.items():
         small = case
         try:
-            if not sig.startswith("shared-seen"):
+            if sig == FAST_SIG:
+                def still_fast(p):
+                    c = dict(case, prog=p, roots=[p[-1]["out"]])
+                    f = run_case(ctx, c, count=False)
+                    return bool(f) and any(s.startswith("records:") for s, _ in f) and passes_with_slow_records(ctx, c)
+
+                for r in case["roots"]:
+                    i = [k for k, st in enumerate(case["prog"]) if st["out"] == r][0]
+                    c = dict(case, prog=case["prog"][: i + 1], roots=[r])
+                    if still_fast(c["prog"]):
+                        p = programs.shrink(c["prog"], still_fast)
+                        small = dict(c, prog=p, roots=[p[-1]["out"]])
+                        break
+            elif not sig.startswith("shared-seen") and "@after-group" not in sig:
                 for r in case["roots"]:
                     i = [k for k, st in enumerate(case["prog"]) if st["out"] == r][0]
                     c = dict(case, prog=case["prog"][: i + 1], roots=[r])
@@ -531,8 +624,10 @@ def run(ctx, replay=None):
     rng = ctx.rng
     t_run = time.time()  # budgets are relative to the start of the search, not to the Lean build/audit
     ctx.rule = (
-        "seeded random array programs (harness.programs, depth 2-6, optimize-graph on/off), each alone and as a group of 2-3 "
-        "collections sharing subtrees walked with one shared `seen`; records executed by an in-process executor (random "
+        "seeded random array programs (harness.programs incl. creation ops with irregular chunks, concatenate=True blockwise / "
+        "apply_along_axis / apply_gufunc / dask-array indexers, masked setitem, persist; depth 2-6, optimize-graph on/off), each "
+        "alone and as a group of 2-3 collections sharing subtrees walked with one shared `seen` (root first or last), with the "
+        "histories group / group-then-each-member-alone / each-member-alone-then-group on the SAME collection objects; records executed by an in-process executor (random "
         "topological order, dependency matching by key string, only declared deps visible) and compared block by block with an "
         "execution of __dask_graph__; correspondence: every task of every real layer expressible in the mini-AST + random "
         "synthetic nested nodes, real _records/_Flattener vs the Lean model; distinct = (optimize, grouped?, layer classes) / model output prefix"
@@ -567,14 +662,17 @@ def run(ctx, replay=None):
         if time.time() - t_run > budget:
             ctx.notes["stopped_early_at"] = it
             break
-        prog, npenv = programs.gen_clean_program(rng, rng.randint(2, 6), ext=True)
+        prog, npenv = programs.gen_clean_program2(rng, rng.randint(2, 6))
         names = [st["out"] for st in prog]
         group = [names[-1]] + rng.sample(names[:-1], min(len(names) - 1, rng.randint(1, 2)))
+        if rng.random() < 0.5:
+            group.reverse()  # the root as a LATER member of the group
         for opt in (True, False):
             for roots in ([names[-1]], group):
                 if len(roots) == 1 and roots is group:
                     continue
-                case = {"prog": prog, "roots": roots, "optimize": opt, "shared": True, "oseed": rng.randrange(10**6)}
+                case = {"prog": prog, "roots": roots, "optimize": opt, "shared": True, "oseed": rng.randrange(10**6),
+                        "history": rng.choice(["group", "group-then-alone", "group-then-alone", "alone-then-group"])}
                 fails = run_case(ctx, case)
                 if it < 2 and opt:
                     ctx.sample({"roots": roots, "optimize": opt, "ops": [st["op"] for st in prog]})
@@ -589,6 +687,7 @@ def run(ctx, replay=None):
                     corr_skipped += s
                 except Exception:
                     pass
+    known_probe(ctx)
     # ---- correspondence (after the search so that the same programs feed both)
     ctx.notes["flatten_tasks_not_expressible"] = corr_skipped
     nd = ctx.correspond("_records(real layers)", corr_pairs, branch_key=lambda req, model: (req.count("K"), req.count("L["), model.count("-sub")))
@@ -599,13 +698,29 @@ def run(ctx, replay=None):
         targeted(ctx)
 
 
+def known_probe(ctx):
+    """FusedBlockwise's pure-Python fast records validate block-independence on sampled blocks only
+    (first / middle / last per axis): a creation op whose interior block has another size."""
+    prog = [
+        {"op": "create", "fn": "ones", "shape": [5], "chunks": [[1, 2, 1, 1]], "dtype": "int64", "fill": 0, "out": "v1"},
+        {"op": "affine", "args": ["v1"], "out": "v2"},
+    ]
+    case = {"prog": prog, "roots": ["v2"], "optimize": True, "shared": False, "oseed": 0}
+    fails = run_case(ctx, case, count=False)
+    if fails:
+        if passes_with_slow_records(ctx, case):
+            ctx.fail(FAST_SIG, case, fails[0][0] + ": " + fails[0][1])
+        else:
+            ctx.fail(fails[0][0], case, fails[0][1])
+
+
 def targeted(ctx):
     """A model/implementation disagreement on `_records`: look for an observable failure of the
     records path on the real code (programs whose layers contain nested tasks)."""
     rng = ctx.rng
     tried = 0
     for _ in range(ctx.scale(150, 1500)):
-        prog, _ = programs.gen_clean_program(rng, rng.randint(2, 5), ext=True, ops=("reduce", "concatenate", "rechunk", "getitem", "take", "stack", "cumsum", "setitem", "binary"))
+        prog, _ = programs.gen_clean_program2(rng, rng.randint(2, 5), ops=("reduce", "concatenate", "rechunk", "getitem", "take", "stack", "cumsum", "setitem", "binary", "blockwise_concat", "apply_along_axis", "take_dask_index"))
         names = [st["out"] for st in prog]
         for opt in (True, False):
             case = {"prog": prog, "roots": [names[-1]], "optimize": opt, "shared": False, "oseed": 0}
